@@ -7,7 +7,7 @@ use serde_json::Value;
 
 pub const META: PropMeta = PropMeta {
     level: "exploration",
-    rule: "stateful generation over the full value range of every public muxer argument: movie/track timescales incl. 0, SPS/PPS of length 0..5, normal, and > 65535 bytes, language strings (empty, 1, 2, 4+ letters, upper case, non-ASCII, NUL, very long), every u32 duration incl. u32::MAX runs, sample sizes 0..64 KiB and a few >= 16 MiB samples, unknown track ids, no tracks, up to 100 tracks; every call is guarded: oracle = no call panics (both build profiles; process death is caught by the supervisor). Stage 'after-io-error': a generated history is muxed into a sink of which one stream call fails (I/O error or zero-length write, position generated), the caller ignores the Err and completes the history: later calls may return Ok or Err, none may panic. Sample and parameter-set content includes Annex B start codes, ADTS headers, all-zero and all-0xFF bytes. When every call returned Ok and every track duration is representable (< 2^62 movie ticks) the C02 structural oracle and the C01 read-back oracle are applied to the output. Non-trivial = at least one argument outside the documented-valid domain, or an all-Ok history that went through the C01/C02 oracles with >= 1 sample. Distinct = hash of the history.",
+    rule: "stateful generation over the full value range of every public muxer argument: movie/track timescales incl. 0, SPS/PPS of length 0..5, normal, and > 65535 bytes, language strings (empty, 1, 2, 4+ letters, upper case, non-ASCII, NUL, very long), every u32 duration incl. u32::MAX runs, sample sizes 0..64 KiB and a few >= 16 MiB samples, unknown track ids, no tracks, up to 100 tracks; every call is guarded: oracle = no call panics (both build profiles; process death is caught by the supervisor). Stage 'calls-after-write_end': after the history's write_end, 1..3 further rounds of (write_sample,) write_end on the same writer; none may panic. Stage 'after-io-error': a generated history is muxed into a sink of which one stream call fails (I/O error or zero-length write, position generated), the caller ignores the Err and completes the history: later calls may return Ok or Err, none may panic. Sample and parameter-set content includes Annex B start codes, ADTS headers, all-zero and all-0xFF bytes. When every call returned Ok and every track duration is representable (< 2^62 movie ticks) the C02 structural oracle and the C01 read-back oracle are applied to the output. Non-trivial = at least one argument outside the documented-valid domain, or an all-Ok history that went through the C01/C02 oracles with >= 1 sample. Distinct = hash of the history.",
     assumptions: &["AAC enum arguments are typed in the API, so only declared variants can be passed"],
 };
 
@@ -212,10 +212,37 @@ pub fn run(ctx: &mut Ctx) {
     // ---- call sequences that go on after a call has failed: one stream call of the sink fails
     // (an I/O error or a zero-length write), the caller ignores the Err and keeps calling
     // write_sample / write_end. Every later call may return Ok or Err; none may panic. ----
+    // ---- the writer is still a live object after write_end (it takes &mut self): a second
+    // write_end, or write_sample followed by write_end, may return anything but must not panic ----
+    ctx.stage("calls-after-write_end");
+    let cases = ctx.pick(20_000u32, 200_000u32) / ctx.nshards;
+    let strat = (mux::mux_history(3, 30, 0.02), 1u8..4).prop_map(|(case, rounds)| AfterEnd { case, rounds });
+    ctx.run_prop(strat, cases, |ctx, c| after_end(ctx, c));
     ctx.stage("after-io-error");
     let cases = ctx.pick(40_000u32, 400_000u32) / ctx.nshards;
     let strat = (mux::mux_history(3, 40, 0.02), any::<u16>(), any::<bool>()).prop_map(|(case, frac, zero)| AfterFault { case, frac, zero });
     ctx.run_prop(strat, cases, |ctx, c| after_fault(ctx, c));
+}
+
+#[derive(Clone, Debug, serde::Serialize, serde::Deserialize)]
+pub struct AfterEnd {
+    pub case: MuxCase,
+    pub rounds: u8,
+}
+
+fn after_end(ctx: &mut Ctx, c: &AfterEnd) -> Check {
+    mux::AFTER_END.with(|a| a.set(c.rounds));
+    let (run, _bytes) = mux::run_mux_vec(&c.case);
+    mux::AFTER_END.with(|a| a.set(0));
+    if let Some(f) = mux::first_panic(&run) {
+        return Err(Failure::new(format!("{}:after-write_end", f.sig), format!("{} (the history's write_end had returned, {} further round(s) of calls were made)", f.detail, c.rounds)));
+    }
+    if run.calls.iter().any(|(n, _)| n == "write_end-again") {
+        ctx.count("calls-after-write_end:completed");
+        ctx.nontrivial(fingerprint(&c.case) ^ (c.rounds as u64) << 56);
+        ctx.sample("after-write_end", &serde_json::json!({"ops": c.case.ops.len(), "tracks": c.case.tracks.len(), "rounds": c.rounds}));
+    }
+    Ok(())
 }
 
 #[derive(Clone, Debug, serde::Serialize, serde::Deserialize)]
@@ -257,6 +284,10 @@ fn after_fault(ctx: &mut Ctx, c: &AfterFault) -> Check {
 }
 
 pub fn replay(ctx: &mut Ctx, stage: &str, case: &Value) -> Check {
+    if stage == "calls-after-write_end" {
+        let c: AfterEnd = serde_json::from_value(case.clone()).map_err(|e| Failure::new("replay:bad-case", e.to_string()))?;
+        return after_end(ctx, &c);
+    }
     if stage == "after-io-error" {
         let c: AfterFault = serde_json::from_value(case.clone()).map_err(|e| Failure::new("replay:bad-case", e.to_string()))?;
         return after_fault(ctx, &c);
